@@ -398,7 +398,7 @@ impl<'de> Visitor<'de> for DescrVisitor {
 
 macro_rules! descr_name {
     ($name:ident, $reader:ident, |$n:ident| $bytes:expr, |$de:ident| $call:expr) => {
-        // @unwind 3
+        // @unwind 8
         // @bound descriptor given by name: a 3-character symbol (symbolic ASCII), one spelling (sym8 or sym32), one reader and one entry point per harness
         // @desc the sym8 and the sym32 spelling of a symbolic descriptor are both read as exactly that name, by deserialize_identifier and by the peeking deserialize_ignored_any, through the slice and the io reader
         harness!($name, |s| {
@@ -421,7 +421,9 @@ macro_rules! descr_name {
         let mut $d = Deserializer::new(serde_amqp::read::IoReader::new(&mut rd));
     };
 }
+// @tier-of c05_dec_descriptor_sym8_identifier probe
 descr_name!(c05_dec_descriptor_sym8_identifier, slice, |n| [0x00u8, SYM8, 3, n[0], n[1], n[2], 0x45], |de| de.deserialize_identifier(DescrVisitor));
+// @tier-of c05_dec_descriptor_sym32_identifier probe
 descr_name!(c05_dec_descriptor_sym32_identifier, slice, |n| [0x00u8, SYM32, 0, 0, 0, 3, n[0], n[1], n[2], 0x45], |de| de.deserialize_identifier(DescrVisitor));
 descr_name!(c05_dec_descriptor_sym8_peek, slice, |n| [0x00u8, SYM8, 3, n[0], n[1], n[2], 0x45], |de| de.deserialize_ignored_any(DescrVisitor));
 descr_name!(c05_dec_descriptor_sym32_peek, slice, |n| [0x00u8, SYM32, 0, 0, 0, 3, n[0], n[1], n[2], 0x45], |de| de.deserialize_ignored_any(DescrVisitor));
@@ -445,6 +447,7 @@ macro_rules! descr_code {
         });
     };
 }
+// @tier-of c05_dec_descriptor_ulong_identifier probe
 descr_code!(c05_dec_descriptor_ulong_identifier, |v, b| [0x00u8, ULONG, b[0], b[1], b[2], b[3], b[4], b[5], b[6], b[7], 0x45], v, |de| de.deserialize_identifier(DescrVisitor));
 descr_code!(c05_dec_descriptor_ulong_peek, |v, b| [0x00u8, ULONG, b[0], b[1], b[2], b[3], b[4], b[5], b[6], b[7], 0x45], v, |de| de.deserialize_ignored_any(DescrVisitor));
 descr_code!(c05_dec_descriptor_smallulong_identifier, |v, b| [0x00u8, SMALLULONG, b[7], 0x45], b[7] as u64, |de| de.deserialize_identifier(DescrVisitor));
